@@ -1,5 +1,6 @@
 """C06 - assignments update the context exactly as written."""
-import evalfam as ef
+import json
+import evalfam as ef, ctxfam
 
 
 def nontriv(r):
@@ -19,6 +20,12 @@ def check(run):
     ef.eval_model_and_replay(run, "assign", ef.mceval_cfg("c06-assign", family="assign", chain=k), "C06", sample_filter=nontriv)
     ef.builtins_model_and_replay(run, "setters", "bin", "CoreIdx" if not thorough else "AllIdx", "C06", nontrivial=lambda r: ef_is_setter(r))
     ef.eval_trace(run, "random", 20000 if thorough else 3000, run.seed + 5, "C06")
+    run.rules.append("Context API (spec/ContextApi.tla): every history of <= 4 operations (new, create_context!, alias handle, set_variable, set_func, get_variable, get_func, value, and "
+                     "execute() of `n`, `n = lit`, `n()` on an alias of the store) over 3 handles / 2 stores / 2 names replayed on real Contexts (leg R), and %d random histories of %d "
+                     "operations over 4 handles / 3 stores / 3 names / 4 values incl. None recorded from the engine and validated by TLC (leg T); a wrong result is C06's when the name's entry "
+                     "was last written as a variable (or never), C08's when it was last written as a function" % ((3000, 60) if thorough else (400, 40)))
+    ctxfam.model_and_replay(run, "C06")
+    ctxfam.trace(run, "C06", "hist", run.seed + 9, 3000 if thorough else 400, 60 if thorough else 40)
     run.exhaustive = False
     run.assumptions += ["an assignment evaluates its target as a read first (a context function bound to the target name is invoked once, then replaced by a variable) - what the code does and the property allows",
                         "programs are built directly as ExprAST values", "TLC, the JSON encodings and the harness comparison are trusted"]
@@ -29,4 +36,6 @@ def ef_is_setter(r):
 
 
 def replay(path, seed):
+    if json.load(open(path))["case"].get("family", "").startswith("ctxapi"):
+        return ctxfam.replay(path, seed)
     return ef.replay(path, seed)
